@@ -6,3 +6,17 @@ for f in sorted(glob.glob('/verif/evidence/*.json')):
     jsonschema.validate(json.load(open(f)), sch)
     print('valid', f)
 print('manifest valid')
+# known findings: a run-time match must be a specific phrase (a short or generic one would swallow unrelated violations),
+# every entry needs its replay file, fixed entries their "fixed:" line
+import os
+kf = json.load(open('/verif/known_findings.json'))
+bad = 0
+for f in kf['findings']:
+    if not os.path.exists(os.path.join('/verif', f.get('replay', ''))):
+        print('known_findings: missing replay for', f['id']); bad += 1
+    if f['status'] == 'open' and len(f.get('match', '')) < 40:
+        print('known_findings: match of open finding too short to be specific:', f['id'], repr(f.get('match'))); bad += 1
+    if f['status'] == 'fixed' and not f.get('line', '').startswith('fixed: property=' + f['property']):
+        print('known_findings: fixed entry without line:', f['id']); bad += 1
+print('known findings:', len(kf['findings']), 'entries,', bad, 'problems')
+sys.exit(1 if bad else 0)
